@@ -686,6 +686,21 @@ func (w *WAL) flushAndSyncLocked() error {
 	return nil
 }
 
+// SyncRotating flushes and syncs a log that has been marked as rotating (Sync
+// refuses in that state). The storage manager calls it before the log's
+// successor takes its first write: what this log accepted must be in its
+// file by then, or a crash could keep a later write and lose an earlier one.
+func (w *WAL) SyncRotating() error {
+	w.mu.Lock()
+	defer w.mu.Unlock()
+
+	if atomic.LoadInt32(&w.status) == WALStatusClosed {
+		return ErrWALClosed
+	}
+
+	return w.flushAndSyncLocked()
+}
+
 // Sync flushes all buffered data to disk
 func (w *WAL) Sync() error {
 	w.mu.Lock()
